@@ -20,6 +20,7 @@ expected) raises ``dsl.UnprovisionedError``. Any *other* exception of the parser
 C06) hides that verdict: counted with ``ctx.mask``.
 """
 import copy
+import hashlib
 
 from sqlalchemy import sql
 
@@ -338,7 +339,29 @@ def gen_spec(stmt, data: bytes):
     return {'stmt': stmt, 'feeds': feeds}
 
 
-pool_strategy = st.tuples(S.statements(3, 3, _PROFILE), st.binary(min_size=160, max_size=160)).map(lambda t: gen_spec(*t))
+def _stream(data: bytes, size: int) -> bytes:
+    out, block = b'', data
+    while len(out) < size:
+        block = hashlib.sha256(block).digest()
+        out += block
+    return out[:size]
+
+
+def make_spec(pair):
+    """Hypothesis often hands out an all-zero byte string for one of the two parts (the same simplest statement or pool
+    over and over): a degenerate part is derived from the other one instead, so that those draws are not wasted."""
+    sdata, pdata = pair
+    if not any(sdata) and any(pdata):
+        sdata = _stream(pdata, len(sdata))
+    elif not any(pdata) and any(sdata):
+        pdata = _stream(sdata, len(pdata))
+    stmt = S.gen_statement(S.ByteChooser(sdata), 3, 3, _PROFILE)
+    return gen_spec(stmt, pdata)
+
+
+pool_strategy = st.tuples(
+    st.binary(min_size=S.STATEMENT_BYTES, max_size=S.STATEMENT_BYTES), st.binary(min_size=160, max_size=160)
+).map(make_spec)
 
 
 # ---- execution -----------------------------------------------------------------------------------------------------------
@@ -436,11 +459,13 @@ def check_pool(ctx, spec):
             ctx.fail_exc(spec, 'match-raises', exc, trig)
             return
         gidx = None if got is None else idx.get(getattr(got, 'ident', None), -1)
-        detail = (
-            f'statement={statement!r}; pool(prio:advertised)='
-            + '; '.join(f'{f["ident"]}@{f["prio"]}:{sorted(map(repr, mappings[f["ident"]]))}' for f in feeds)
-            + f'; expected={None if winner is None else feeds[winner]["ident"]} got={None if gidx is None else (feeds[gidx]["ident"] if gidx >= 0 else got)}'
-        )
+
+        def detail():
+            pool_txt = '; '.join(f'{f["ident"]}@{f["prio"]}:{sorted(map(repr, mappings[f["ident"]]))}' for f in feeds)
+            exp = None if winner is None else feeds[winner]['ident']
+            have = None if gidx is None else (feeds[gidx]['ident'] if gidx >= 0 else got)
+            return f'statement={statement!r}; pool(prio:advertised)={pool_txt}; expected={exp} got={have}'
+
         if gidx != winner:
             if winner is None:
                 kind = 'selected-although-none-covers'
@@ -452,7 +477,7 @@ def check_pool(ctx, spec):
                 kind = 'selected-lower-priority'
             else:
                 kind = 'selected-other'
-            ctx.fail(spec, 'match', kind, detail, trig)
+            ctx.fail(spec, 'match', kind, detail(), trig)
             return
         # cached second call must agree with the first
         try:
@@ -460,7 +485,7 @@ def check_pool(ctx, spec):
         except forml.MissingError:
             again = None
         if again is not got:
-            ctx.fail(spec, 'match', 'second-call-differs', detail, trig)
+            ctx.fail(spec, 'match', 'second-call-differs', detail(), trig)
             return
         # ---- parser cross-check --------------------------------------------------------------------------------------
         instances = {f.ident: f for f in importer}
@@ -470,7 +495,7 @@ def check_pool(ctx, spec):
             if outcome == 'unprovisioned':
                 ctx.klass('parse:passed-over-unprovisioned')
             elif outcome == 'ok':
-                ctx.fail(spec, 'passed-over-parses', 'no-unprovisioned-error', f'{detail}; feed {feeds[i]["ident"]} parsed it to: {payload}', [])
+                ctx.fail(spec, 'passed-over-parses', 'no-unprovisioned-error', f'{detail()}; feed {feeds[i]["ident"]} parsed it to: {payload}', [])
             else:
                 ctx.mask(f'passed-over-parse|{type(payload).__name__}@{ctxmod.forml_frame(payload)}')
         if winner is not None:
@@ -487,7 +512,7 @@ def check_pool(ctx, spec):
 
 
 def campaigns(ctx):
-    return [Campaign('pool', pool_strategy, check_pool, 3000, 30000)]
+    return [Campaign('pool', pool_strategy, check_pool, 2500, 8000)]
 
 
 LEVEL_TEXT = (
